@@ -19,7 +19,8 @@ RULE = ("A: ALL (witness version, program length) in 0..17 x 0..42 x 6 prefixes 
         "no (a in W<=1, b in W<=2) with S(a)^S(b)=D, and EVERY (a,b in W2) with S(a)^S(b)=D is listed and replayed end to end on real "
         "addresses of every shape it fits. D: all single substitutions (thorough: all double substitutions) on real addresses of every "
         "emitted shape through decode() and bech32_decode_address(). non-trivial = answer compared with the reference / syndrome "
-        "entered into the injectivity table; distinct by construction")
+        "entered into the injectivity table; distinct by construction"
+        "; every constructed fault string also goes through helper.bech32_decode_address")
 # incl. every printable non-upper-case ASCII character that BIP173 allows in a prefix
 HRPS = ["bc", "tb", "bcrt", "a", "x1y", "h" * 83, "my_net", "!\"#$%&'()*+,-./", "0123456789:;<=>?@", "[\\]^_`{|}~", "z9~"]
 
